@@ -294,6 +294,11 @@ class Ext(Domain):
                 # symmetry_factor = 2.0 inside the symmetry arm
                 if node.value in (2, 2.0) and isinstance(stmt, ast.Assign) and stmt.value is node and self.in_sym_arm(it, stmt):
                     return T(const=True, dbl=True)
+                # x = x * 2.0 / x = 2.0 * x inside the symmetry arm: the same doubling written without *=
+                if node.value in (2, 2.0) and isinstance(stmt, ast.Assign) and isinstance(stmt.value, ast.BinOp) and isinstance(stmt.value.op, (ast.Mult, ast.Div)) and node in (stmt.value.left, stmt.value.right) and self.in_sym_arm(it, stmt):
+                    other = stmt.value.right if node is stmt.value.left else stmt.value.left
+                    if len(stmt.targets) == 1 and unparse(other) == unparse(stmt.targets[0]):
+                        return T(const=True, dbl=True)
                 return CONST
             return None
         if isinstance(node, ast.Name):
